@@ -15,7 +15,8 @@ ASSUME = [
     "structures that only 64-bit pointers refer to (the XSDT, tables listed by it alone, a DSDT behind X_DSDT alone) are placed, in about half of the images, in a second "
     "area at or above 4 GiB whose addresses modulo 2^32 are reserved PROT_NONE: a 64-bit address cut to 32 bits faults or names no root table",
     "at most one root-pointer candidate has a valid checksum; a revision >= 1 candidate with a valid 36-byte sum always has a valid 20-byte sum too "
-    "(the statement says 'its checksum'); decoys may sit before and after it; candidates lie wholly inside the search window and >= 3 slots apart",
+    "(the statement says 'its checksum'); decoys and near-miss signatures may sit before and after it, also in the neighbouring slots (a revision-0 decoy right before another candidate, any revision-0 candidate two slots before one); every candidate structure lies wholly inside the search window (revision 0 up to slot 8190, otherwise up to 8189) - a decoy crossing the window end is not generated because the statement does not speak about reads behind the window",
+    "0..~320 tables of 36 bytes .. ~100 KiB at arbitrary byte alignment; not covered: tables beyond ~100 KiB (table areas are 384 KiB), more than ~320 tables, two valid root pointers, a corrupted root table",
     "tables have distinct signatures; a corrupted table has one byte at an offset >= 8 changed after the checksum was set (signature and length intact); "
     "the DSDT is reachable only through the FADT",
     "the DSDT outcome is constrained when the FADT designates exactly one table: 32-bit pointer set (64-bit null or equal), or only the 64-bit pointer set on "
@@ -91,8 +92,8 @@ def run(ctx):
     ctx.rule = ("case = one abstract firmware image (root-pointer candidates with slot/revision/checksum state, two root tables, tables with good or "
                 "corrupted checksum, FADT pointer mode, DSDT); leg G runs every image TLC enumerated in the small scope (4 window slots mapped to real slots "
                 "0/3/4100/8189 x every arrangement of valid/decoy candidates; every list of <= MaxT tables in every order with every good/bad assignment, "
-                "FADT 32/64/both, DSDT good/bad, 64-bit-only structures low or above 4 GiB); leg T runs seeded random images (<= 14 tables, any of the 8190 slots, noise-filled window, revisions "
-                "0/1/2/3/255); a case is distinct by its image and non-trivial when it has a candidate or a table")
+                "FADT 32/64/both, DSDT good/bad, 64-bit-only structures low or above 4 GiB); leg T runs seeded random images (0..~320 tables of 36 B..100 KiB, any slot the structure fits in incl. 8190 for revision 0, neighbouring decoys, "
+                "noise-filled window, revisions 0/1/2/3/255); a case is distinct by its image and non-trivial when it has a candidate or a table")
     d = ctx.spec_dir("acpi")
     tier = "Quick" if q else "Full"
     raw = os.path.join(ctx.work, "cases_raw.ndjson")
